@@ -256,7 +256,7 @@ def check_c13(tier, seed):
     bdir = build()
     binary = os.path.join(bdir, "simharness-norace")
     nprog, nsched = (60, 12) if tier == "quick" else (800, 40)
-    progs = [cgen.generate(seed + 13, i, faults=False) for i in range(nprog)]
+    progs = [cgen.generate_mixed(seed + 13, i, faults=False) for i in range(nprog)]
     static = c13_static(binary, progs)
     st = BStats()
     buckets = collections.Counter()
@@ -374,7 +374,7 @@ def check_c14(tier, seed):
     bdir = build()
     binary = os.path.join(bdir, "simharness-norace")
     nprog, nsched = (60, 12) if tier == "quick" else (800, 40)
-    progs = [cgen.generate(seed + 14, i, faults=False) for i in range(nprog)]
+    progs = [cgen.generate_mixed(seed + 14, i, faults=False) for i in range(nprog)]
     static = c14_static(binary, progs)
     st = BStats()
     buckets = collections.Counter()
@@ -418,6 +418,21 @@ def check_c14(tier, seed):
 
 # =============================================================== C19
 
+def norm_fn(name):
+    """Function name of a may-panic finding without package qualifier and bound-method suffix."""
+    n = name.replace("command-line-arguments.", "")
+    return re.sub(r"\$(bound|thunk)$", "", n)
+
+
+def reported(pairs, entry, go_line):
+    for fn, line in pairs:
+        if line != go_line:
+            continue
+        if fn == entry or (entry.startswith("main$") and fn.startswith("main$")):
+            return True
+    return False
+
+
 def check_c19(tier, seed):
     t0 = time.time()
     rep = Report("C19")
@@ -425,15 +440,31 @@ def check_c19(tier, seed):
     binary = os.path.join(bdir, "simharness-norace")
     nprog, nsched = (80, 3) if tier == "quick" else (1000, 8)
     progs = [cgen.generate(seed + 19, i, faults=True, stmts=2 + (i % 4)) for i in range(nprog)]
-    jobs = static_jobs(progs, "maypanic", {})
+    # The report must hold in every run of the tool: the static side is run under several map iteration orders and a
+    # (function, creation site) pair counts as reported only if every run reports it.
+    norders = 3 if tier == "quick" else 6
+    orng = Rng(seed ^ 0x519)
+    jobs = []
+    for k in range(norders):
+        for j in static_jobs(progs, "maypanic", {}):
+            if k > 0:
+                j["params"] = dict(sysa.base_params(), tape=make_tape(orng, 400, "uniform"), map_perm_pct=100,
+                                   map_salt=orng.next() & 0xFFFFFFFF)
+            j["id"] = len(jobs)
+            jobs.append(j)
     sres = run_jobs(binary, [{k: v for k, v in j.items() if not k.startswith("_")} for j in jobs], timeout=300)
     static = []
-    for r in sres:
-        mp = (r or {}).get("maypanic")
-        if r is None or sysa.classify_hard(r) or r.get("died") or r.get("panic") or mp is None:
-            static.append(None)
-        else:
-            static.append(set(c for f in mp["findings"] for c in f["creators"]))
+    for pi in range(len(progs)):
+        common_pairs = None
+        for k in range(norders):
+            r = sres[k * len(progs) + pi]
+            mp = (r or {}).get("maypanic")
+            if r is None or sysa.classify_hard(r) or r.get("died") or r.get("panic") or mp is None:
+                common_pairs = None
+                break
+            pairs = set((norm_fn(f["function"]), c) for f in mp["findings"] for c in f["creators"])
+            common_pairs = pairs if common_pairs is None else (common_pairs & pairs)
+        static.append(common_pairs)
     st = BStats()
     buckets = collections.Counter()
     forms_killed = collections.Counter()
@@ -449,6 +480,10 @@ def check_c19(tier, seed):
                 for fl in w["fault_lines"]:
                     for _ in range(nsched):
                         plan.append((i, b_params(rng, fault_site=fl, fault_at=1), w))
+                for fl in w.get("twin_fault_lines") or []:
+                    tw = dict(w, entry=w["twin_entry"], recovers=False, form=w["form"] + "-second-instantiation", defer="none")
+                    for _ in range(nsched):
+                        plan.append((i, b_params(rng, fault_site=fl, fault_at=1), tw))
         res = run_dynamic(farm, progs, [(i, p) for i, p, _ in plan], sinks=False, access_log=False)
         for (pi, params, w), r in zip(plan, res):
             h = hard_b(r)
@@ -464,6 +499,9 @@ def check_c19(tier, seed):
                 buckets["fault point not reached under this schedule"] += 1
                 continue
             killed = [p for p in panics if p["create_site"] == w["go_line"]]
+            if w["form"].startswith("generic_launch"):
+                # two goroutines share the creation site; attribute by the fault line that fired
+                killed = killed[:1] if killed else []
             # generator self-check: the generator's belief about recover semantics must match the execution
             if w["recovers"] and killed:
                 raise Inconclusive("generator self-check failed: %s worker %d (%s) was believed to recover but the panic reached the top" % (progs[pi]["name"], w["k"], w["defer"]))
@@ -473,7 +511,7 @@ def check_c19(tier, seed):
                 buckets["panic recovered by the entry function's deferred recover (program continues)"] += 1
                 continue
             forms_killed[(w["form"], w["defer"])] += 1
-            if w["go_line"] not in static[pi]:
+            if not reported(static[pi], w["entry"], w["go_line"]):
                 sig = "goroutine killed by an unrecovered panic is not in the may-panic report: go form %s, defer form %s" % (w["form"], w["defer"])
                 rep.violation(sig, replay_b("C19", progs[pi], params, sig, {"worker": w}), progs[pi]["name"])
         cov = st.coverage({"programs": nprog, "programs_with_static_verdict": len(usable), "schedules_per_fault_point": nsched,
@@ -514,12 +552,12 @@ def run_replay(prop, path):
             hit = any(ln == pl.get("line") for _, ln in v)
         elif prop == "C19":
             sr = run_one(binary, static_jobs([prog], "maypanic", {})[0])
-            creators = set(c for f in ((sr or {}).get("maypanic") or {}).get("findings", []) for c in f["creators"])
+            creators = set((norm_fn(f["function"]), c) for f in ((sr or {}).get("maypanic") or {}).get("findings", []) for c in f["creators"])
             r = farm.run(prog["name"], pl["params"], False, False)
             w = pl["worker"]
             killed = [p for p in (r.get("sim") or {}).get("panics") or [] if p["create_site"] == w["go_line"]]
             print("panics reaching the top: %r; report creators: %r" % (killed, sorted(creators)))
-            hit = bool(killed) and w["go_line"] not in creators
+            hit = bool(killed) and not reported(creators, w["entry"], w["go_line"])
         if hit:
             print("VIOLATION property=%s replay=%s" % (prop, path))
             return 1
